@@ -15,7 +15,7 @@
 //
 // Operations (O):  blob_put:<L>  put_tag:<tag>:<M>  put_digest:<M>  put_child:<M>  put_index:<tag>:<IX>
 // put_ref:<tag>:<A>  put_refd:<A>  tag_delete:<tag>  man_delete:<M>  copy:<tag>:<srctag>
-// copy_ref:<tag>:<srctag>  import:<tag>:<tarname>  close_gc:<tag> ; the suffix "+gc" calls rc.Close (garbage collection)
+// copy_ref:<tag>:<srctag>  import:<tag>:<tarname> ; the suffix "+gc" calls rc.Close (garbage collection)
 // after the operation, like regctl does.
 package main
 
